@@ -222,20 +222,24 @@ class Prerequisite:
         self._cached_satisfied = None
         if '|' in expr:
             # Make a Python expression so we can eval() the logic.
-            for t_output in self._satisfied:
-                # Use '\b' in case one task name is a substring of another
-                # and escape special chars ('.', timezone '+') in task IDs.
-                msg = self.MESSAGE_TEMPLATE % t_output
-                if msg[0] == '-':
-                    # -ve cycles: \b needs to be to the right of the `-` char.
-                    pattern = fr"-\b{re.escape(msg[1:])}\b"
-                else:
-                    pattern = fr"\b{re.escape(msg)}\b"
-                expr = re.sub(
-                    pattern,
-                    self.SATISFIED_TEMPLATE % t_output,
-                    expr
-                )
+            # Substitute all outputs in a single pass, trying the longest
+            # first, so that an output whose ID is a substring of another
+            # (e.g. "1/foo x" in "11/foo x", "-1/foo x" or "1/foo x-y") is
+            # never replaced inside it. Special chars ('.', timezone '+')
+            # in task IDs are escaped.
+            subs = {
+                self.MESSAGE_TEMPLATE % t_output:
+                    self.SATISFIED_TEMPLATE % t_output
+                for t_output in self._satisfied
+            }
+            expr = re.sub(
+                '|'.join(
+                    re.escape(msg)
+                    for msg in sorted(subs, key=len, reverse=True)
+                ),
+                lambda match: subs[match.group(0)],
+                expr
+            )
 
             self.conditional_expression = expr
 
